@@ -75,12 +75,14 @@ PAYLOAD_POOL = [
 
 NUMBER_PAYLOADS = ["", "0", "1", "55", "100", "101", "150", "-1", "-3", "-3.5", "99.5", "100.4", "100.5",
                    "0.4", "-0.4", "abc", "nan", "inf", "-inf", "1e400", "1e3", "1_0", " 7", "7 ", "+7", "07",
-                   "٣", "0x10", "True", "9" * 5000, "1.5", "2.0", "255", str(2**63), "1e2"]
+                   "٣", "0x10", "True", "9" * 5000, "1.5", "2.0", "255", str(2**63), "1e2",
+                   # digit-like characters: int() / float() accept the Nd ones (any script), isdigit / isnumeric more
+                   "²", "①", "½", "Ⅳ", "１２", "५५", "5²", "⁵"]
 
 VERSION_PAYLOADS = ["", "abc", "garbage", "2.x", "2.2-beta", "2", "1.4", "1.5", "1.5.0", "2.0", "2.0.0",
                     "2.1", "2.1.1", "2.2", "2.2.0", "2.3.2", "3.0", "0.9", "1.0.0", "2.10", "1.10.1",
                     "v2.2", " 2.2", "2..2", ".2", "2.", "-1.0", "1e1.2", "2.2.0.0", "2.2.0.0.0", "٢.٢",
-                    "2.2;1", "nan", "1.4.1", "9" * 50 + ".0", "9" * 5000 + ".0"]
+                    "2.2;1", "nan", "1.4.1", "9" * 50 + ".0", "9" * 5000 + ".0", "２.２", "2.²", "②.0", "२.०"]
 
 _ALPHABET = (
     list("abcXYZ0123456789 .,:-_+/\\#;;;;'\"()[]{}<>=!?*&^%$@~`|")
